@@ -6,7 +6,7 @@
    cfgnil <Q> {<s> <c>}                           -> same, for a nil configuration
    sweep <G> {<name> <R> {<sv> <cv>}}             -> <validate> ; md5=<digest of the 4096x4096 table> hits=<n> rowruns=<k> diff=none
    runes <kind> <lo> <hi>                         -> accepted code points, as runs lo-hi=<result>
-   l2gw <G> {<name> <gpol> <R> {<sv> <cv> <rpol>}} <Q> {<s> <c>} -> per query none | <group>:<AAA policy>   (argv[3] = repaired | defective)
+   l2gw | l2fw ...                                -> see [consumer] below
 *)
 let show_sel = function SelAny -> "any" | SelExact c -> "c" ^ string_of_int (int_of_n c)
 let show_match = function
@@ -52,12 +52,14 @@ let show_validate cfg =
   | VOk -> "valid"
   | VCollision _ | VMalformed _ -> "rejected"
 
-(* model variant (argv[3]): "repaired" = the AAA policy of the matched range (l2gw_policy); "defective" = /repo HEAD's
-   l2gw trigger, which rescans the matched group by S-VLAN only (l2gw_policy_rescan) *)
+(* consumers.  l2gw: the l2gw trigger's AAA request (group, AAA policy) for a pair; l2fw: does the ipoe component hand a
+   DHCP frame of the pair to l2gw.  argv[3]: "repaired" (default) = decided by the range the pair is classified to;
+   "defective" = /repo HEAD, which asks whether ANY range of the matched group is an l2gw range;
+   "rescan" = the l2gw policy resolution before /repo 60d937f (old replays only)
+   l2gw|l2fw <G> {<name> <gpol> <R> {<sv> <cv> <rpol> <acc>}} <Q> {<s> <c>}     acc = l | i | p | ip *)
 let variant = if Array.length Sys.argv > 3 then Sys.argv.(3) else "repaired"
 
-(* l2gw <G> {<name> <gpol> <R> {<sv> <cv> <rpol>}} <Q> {<s> <c>} -> per query none | <group>:<policy> *)
-let l2gw toks =
+let consumer kind toks =
   match toks with
   | [] -> "badline"
   | g :: rest ->
@@ -66,18 +68,25 @@ let l2gw toks =
       match rest with
       | name :: gpol :: r :: rest ->
         let nr = int_of_string r in
-        let (toks, rest) = take (3 * nr) rest in
-        let rec triples = function a :: b :: c :: t -> ((cps_of_token a, cps_of_token b), cps_of_token c) :: triples t | _ -> [] in
-        groups (k-1) rest (((cps_of_token name, cps_of_token gpol), triples toks) :: acc)
-      | _ -> failwith "bad l2gw" in
+        let (toks, rest) = take (4 * nr) rest in
+        let rec quads = function
+          | a :: b :: c :: d :: t -> ((cps_of_token a, cps_of_token b), (cps_of_token c, d = "l")) :: quads t
+          | _ -> [] in
+        groups (k-1) rest (((cps_of_token name, cps_of_token gpol), quads toks) :: acc)
+      | _ -> failwith "bad consumer case" in
     let (acfg, rest) = groups ng rest [] in
     let qs = match rest with _ :: qs -> qs | [] -> [] in
     let rec qpairs = function a :: b :: t -> (int_of_string a, int_of_string b) :: qpairs t | _ -> [] in
-    let f = if variant = "defective" then l2gw_policy_rescan else l2gw_policy in
-    String.concat " " (List.map (fun (s, c) ->
-        match f acfg (n_of_int s) (n_of_int c) with
-        | None -> "none"
-        | Some (n, p) -> token_of_cps n ^ ":" ^ token_of_cps p) (qpairs qs))
+    if kind = "l2fw" then
+      let f = if variant = "defective" then l2gw_handoff_bygroup else l2gw_handoff in
+      String.concat " " (List.map (fun (s, c) -> if f acfg (n_of_int s) (n_of_int c) then "fwd" else "no") (qpairs qs))
+    else
+      let f = if variant = "rescan" then l2gw_policy_rescan
+        else if variant = "defective" then l2gw_policy_bygroup else l2gw_policy in
+      String.concat " " (List.map (fun (s, c) ->
+          match f acfg (n_of_int s) (n_of_int c) with
+          | None -> "none"
+          | Some (n, p) -> token_of_cps n ^ ":" ^ token_of_cps p) (qpairs qs))
 
 let queries cfg rest =
   let qs = match rest with _ :: qs -> qs | [] -> [] in
@@ -180,6 +189,7 @@ let () =
     | "sweep" :: rest ->
       let (cfg, _) = read_config rest in
       print_endline (show_validate cfg ^ " ; " ^ sweep cfg)
-    | "l2gw" :: rest -> print_endline (l2gw rest)
+    | "l2gw" :: rest -> print_endline (consumer "l2gw" rest)
+    | "l2fw" :: rest -> print_endline (consumer "l2fw" rest)
     | ["runes"; kind; lo; hi] -> print_endline (runes kind (int_of_string lo) (int_of_string hi))
     | _ -> print_endline "badline") lines
